@@ -674,6 +674,8 @@ def replay(path, quiet=False):
     flags_ = PLAIN_FLAGS if valgrind else (TSAN_FLAGS if plan.get("build") == "tsan" else SAN_FLAGS)
     if plan.get("build") == "cond":
         flags_ = SAN_FLAGS + Catalogue().conditional_build_flags()["flags"]
+    if plan.get("build") == "uchar":
+        flags_ = SAN_FLAGS + ["-funsigned-char"]
     h = Harness(common.scratch("c20r"), flags_, only=names, ntus=1, label="replay")
     err = h.build()
     if err:
@@ -721,7 +723,7 @@ def main(tier, seed):
     # one compile wave on 16 cores: every TU pays ~18 s (sanitizers) for the library's table initialisers
     nsan = max(1, (common.NCPU * 9) // 16)
     nplain = max(1, (common.NCPU * 3) // 16)
-    ntsan = max(1, common.NCPU - nsan - nplain)
+    ntsan = max(1, common.NCPU - nsan - nplain - 1)   # one core's worth goes to the unsigned-char build
     hs = Harness(os.path.join(root, "san"), SAN_FLAGS, subset=subset, label="san", ntus=nsan)
     psub = subset if thorough else {"double": subset["double"]}
     hp = Harness(os.path.join(root, "plain"), PLAIN_FLAGS, subset=psub, label="plain", ntus=nplain)
@@ -738,8 +740,15 @@ def main(tier, seed):
             hx.std = "-std=c++20"
         log("conditional code found in the headers (%s): extra sanitizer build with %s%s" % (
             ", ".join(cond["macros"]), " ".join(cond["flags"]), " -std=c++20" if cond["cxx20"] else ""))
+    # portability build: plain char is unsigned on ARM/PowerPC Linux (and with -funsigned-char anywhere); the text-handling
+    # ops (parsers, string helpers, enumeration tables, Dimensions) are rebuilt that way under the sanitizers
+    text_ops = None
+    if not thorough:
+        text_ops = {n for n in HarnessGen(Catalogue()).all_instance_names() if re.match(r"^(Base\||Unit::\w+\||UnitSystem\||ConstitutiveModel::Type\||Dimensions\||Dimension::|Free\|)", n)}
+    hu = Harness(os.path.join(root, "uchar"), SAN_FLAGS + ["-funsigned-char"], only=text_ops, subset=(None if thorough else subset), label="uchar",
+                 ntus=(max(2, common.NCPU // 3) if thorough else 1))
     # the builds share the cores; the sanitizer build is the long pole
-    errs = pmap(lambda h: h.build(), [h_ for h_ in (hs, hp, ht, hx) if h_ is not None], 4)
+    errs = pmap(lambda h: h.build(), [h_ for h_ in (hs, hp, ht, hx, hu) if h_ is not None], 5)
     for e in errs:
         if e:
             log("INFRASTRUCTURE: " + e)
@@ -826,6 +835,8 @@ def main(tier, seed):
     if hx is not None:
         execute("conditional-build", hx.exe, chunked(gen_enumeration(hx, rng, draws=1) + gen_enumeration(hx, rng, draws=(40 if thorough else 8), faults=False)
                                                      + [o for o in gen_value_classes(hx, rng) if thorough or o["vc"] in (0, 2, 5, 6, 9)], 60000, size=512), build="cond")
+    execute("unsigned-char-build", hu.exe, chunked(gen_enumeration(hu, rng, draws=1) + gen_enumeration(hu, rng, draws=(60 if thorough else 30), faults=False)
+                                                   + gen_sweeps(hu, cat, False, Rng(common.run_seed(seed, 10))), 40000, size=512), build="uchar")
     # 3. fault-free batch on its own (so the relaxation under faults can hide nothing)
     ff = gen_enumeration(hs, rng, draws=(300 if thorough else 24), faults=False)
     execute("fault-free", hs.exe, chunked(ff, 200000, size=512))
@@ -912,7 +923,7 @@ def main(tier, seed):
         for fam, items in unknown[:2]:      # minimise and report up to two families per class
             b, ops_, e = min(items, key=lambda it: it[2]["op"])
             valgrind = b == "plain-memcheck"
-            exe = hp.exe if valgrind else (ht.exe if b == "tsan" else (hx.exe if b == "cond" else hs.exe))
+            exe = hp.exe if valgrind else (ht.exe if b == "tsan" else (hx.exe if b == "cond" else (hu.exe if b == "uchar" else hs.exe)))
             env_ = e.get("env")
             plan_ops, used = minimise(exe, ops_, e, valgrind, env=env_)
             name = ops_[e["op"]]["name"]
@@ -972,7 +983,8 @@ def main(tier, seed):
         "determinism_sample": {"plans": len(det_runs), "worker_assignments": [1, min(16, common.NCPU)], "identical": True},
         "violation_groups": len(groups), "known_findings_matched": len(known_lines),
         "components": {"real": ["all PhQ headers from /repo/include (working tree)", "libstdc++ (strings, streams, containers, stod family) in debug mode",
-                                "ASan", "UBSan (all of -fsanitize=undefined except the null check)", "valgrind memcheck on a plain -O0 build", "ThreadSanitizer on a third build (two real threads inside the library at once)"],
+                                "ASan", "UBSan (all of -fsanitize=undefined except the null check)", "valgrind memcheck on a plain -O0 build", "ThreadSanitizer on a third build (two real threads inside the library at once)",
+                                "a sanitizer build with -funsigned-char (text-handling ops in quick, everything in thorough)"],
                        "simulated": ["allocator's decision to fail (replaced global operator new)", "stream sink (std::streambuf with byte budget, 3 failure modes, preset state bits/flags, null buffer)"],
                        "absent_no_seam": ["clock", "network", "disk", "threads"]},
         "build_seconds": {"sanitizer": round(hs.build_s, 1), "plain": round(hp.build_s, 1)},
